@@ -144,7 +144,12 @@ void vec_mixed()
   auto const r1{mkv(U) - mkv(I)}, r2{mkv(U) + mkv(I)}, r3{mkv(U) * mkv(I)}, r4{mkv(I) - mkv(U)};
   auto const r5{mkv(B) * k}, r6{k * mkv(B)}, r7{mkv(B) * h};
   auto const r8{mkv(C) + mkv(D)}, r9{mkv(C) * mkv(D)}, r10{-mkv(B)}, r11{-mkv(C)};
-  auto const r12{mkv(I) + mkv(W)}, r13{mkv(I) * mkv(W)}, r14{mkv(S) - mkv(W)};
+  auto const r12{mkv(I) + mkv(W)}, r13{mkv(I) * mkv(W)};
+#ifdef VERIF_MIXED_SU
+  // kept in its own translation unit (C14_mixed_su.cpp): a change of the operand types inside operator- makes exactly
+  // this combination ill-formed, and a unit that does not build decides nothing
+  auto const r14{mkv(S) - mkv(W)};
+#endif
   auto const d1{mkd(S) + mkd(I)}, d2{mkd(S) - mkd(I)}, d3{mkd(S) * mkd(I)}, d4{mkd(S) * k}, d5{h * mkd(B)}, d6{-mkd(S)};
   auto const m1{mkv(B) + mkd(I)}, m2{mkv(U) - mkd(S)}, m3{mkv(C) * mkd(B)};
   for (sz i = 0; i < N; ++i)
@@ -163,7 +168,9 @@ void vec_mixed()
     comp(r11.get_unsafe(i), -C.c[i], "- vector<signed char>: int components");
     comp(r12.get_unsafe(i), I.c[i] + W.c[i], "vector<int> + vector<unsigned>: unsigned components");
     comp(r13.get_unsafe(i), I.c[i] * W.c[i], "vector<int> * vector<unsigned>: unsigned components");
+#ifdef VERIF_MIXED_SU
     comp(r14.get_unsafe(i), S.c[i] - W.c[i], "vector<short> - vector<unsigned>: unsigned components");
+#endif
     comp(d1.get_unsafe(i), S.c[i] + I.c[i], "dim<short> + dim<int>");
     comp(d2.get_unsafe(i), S.c[i] - I.c[i], "dim<short> - dim<int>");
     comp(d3.get_unsafe(i), S.c[i] * I.c[i], "dim<short> * dim<int>");
@@ -179,7 +186,11 @@ void vec_mixed()
 }
 
 #define H(name, ...) VERIF_HARNESS(name) { __VA_ARGS__; }
+#ifdef VERIF_MIXED_SU
+H(h_mixed_su_1, vec_mixed<1>()) H(h_mixed_su_2, vec_mixed<2>()) H(h_mixed_su_3, vec_mixed<3>())
+#else
 H(h_mixed_matmul_2, matmul_narrow<2>()) H(h_mixed_matmul_3, matmul_narrow<3>()) H(h_mixed_matmul_2x3, matmul_narrow_2x3())
 H(h_mixed_vec_1, vec_mixed<1>()) H(h_mixed_vec_2, vec_mixed<2>()) H(h_mixed_vec_3, vec_mixed<3>())
+#endif
 //@harness h_mixed_matmul_{N} for N in 2,3,2x3 tier=quick loop=100 som=1
 //@harness h_mixed_vec_{N} for N in 1,2,3 tier=quick loop=100 som=1
